@@ -330,6 +330,9 @@ func load(T types.Type, addr *value) value {
 		}
 		return a
 	default:
+		if ex != nil && ex.par != nil {
+			ex.par.access(addr, false)
+		}
 		return *addr
 	}
 }
